@@ -25,6 +25,7 @@ type PropConfig struct {
 	Inst       bool     `json:"inst"`
 	Bounded    []string `json:"bounded_standins"`
 	MinObl     int      `json:"min_obligations"`
+	LemmaDirs  []string `json:"lemma_dirs"`
 }
 
 type Finding struct {
@@ -214,7 +215,7 @@ func cmdCheck(args []string) int {
 	nFns := 0
 	totalInstr := 0
 	for _, ct := range cs.Order {
-		if ct.External || ct.Trusted || ct.Opaque {
+		if ct.External || ct.Trusted || ct.Opaque || ct.onlyInline() {
 			continue
 		}
 		serves := hasProp(ct.Props, *prop)
@@ -305,6 +306,49 @@ func cmdCheck(args []string) int {
 			} else {
 				violations = append(violations, a)
 			}
+		}
+	}
+	// spec-level lemmas: pure SMT-LIB scripts, each expected unsat
+	for _, ld := range pc.LemmaDirs {
+		files, _ := filepath.Glob(filepath.Join(*verif, ld, "*.smt2"))
+		sort.Strings(files)
+		for _, lf := range files {
+			name := "lemma:" + strings.TrimSuffix(filepath.Base(lf), ".smt2")
+			data, err := os.ReadFile(lf)
+			if err != nil {
+				continue
+			}
+			var b strings.Builder
+			b.WriteString("(set-logic ALL)\n")
+			for _, l := range strings.Split(string(data), "\n") {
+				if strings.HasPrefix(l, "; include:") {
+					inc, err := os.ReadFile(filepath.Join(*verif, "spec", strings.TrimSpace(strings.TrimPrefix(l, "; include:"))))
+					if err == nil {
+						b.Write(inc)
+						b.WriteString("\n")
+					}
+					continue
+				}
+				b.WriteString(l + "\n")
+			}
+			qf := filepath.Join(dir, sanitize(name)+".smt2")
+			os.WriteFile(qf, []byte(b.String()), 0o644)
+			r := solve(qf, timeout, confirm)
+			totalObl++
+			solverTime += r.Seconds
+			rep := obligationReport{Name: name, Kind: "lemma", Fn: lf, Status: "discharged", Solver: r.Solver, Second: r.Second, Seconds: round3(r.Seconds), Paths: 1, Goal: "spec-level lemma (see file header)"}
+			if r.Status == "unsat" {
+				totalOK++
+				solverCount[r.Solver]++
+			} else {
+				rep.Status = "unknown"
+				if r.Status == "sat" {
+					rep.Status = "failed"
+				}
+				violations = append(violations, &aggGoal{Name: name, Kind: "lemma", Fn: lf, Status: rep.Status, Text: "spec-level lemma not discharged: " + lf,
+					Fail: &goalOutcome{Goal: &Goal{Name: name}, Res: r, File: qf}})
+			}
+			reports = append(reports, rep)
 		}
 	}
 	// result
